@@ -10,6 +10,7 @@ from vf.simk.world import World
 
 ID = "C05"
 LEVEL = "exploration"
+ALT_MOUNT = True          # run once more with procfs mounted at /hostproc (vf/child.py)
 BUDGET = 4000
 
 
